@@ -1,5 +1,6 @@
-Require Import DS.Base DS.Parser DS.Include.
+Require Import DS.Base DS.Parser DS.Include DS.IncludePath.
 Require Import ExtrOcamlBasic.
 Extraction Language OCaml.
 Extraction "../ocaml/gen/c14_model.ml" N.of_nat N.to_nat Z.of_N Z.to_N
-  parse_file inline_x inline_t parse_x pasted unlines erase parse_text include_path.
+  parse_file inline_x inline_t parse_x pasted unlines erase parse_text include_path
+  parent push lex_join resolve trim_dir clean_dir plain.
